@@ -430,4 +430,157 @@ theorem prog_results {w0 : World Feature} {s : MSeq} (hs : WFSeq w0 s) (ops : Li
       · exact h ▸ sp.wf.mono fr
       · exact rest.2 r h
 
+
+/-! ### the PRE-REPAIR statements violate FRAME (the model can express the defect)
+
+Concrete heaps; the host/table has spare capacity 1, 2 and 3 (`0xEE` = 238 is the sentinel the
+harness fills buffers with).  Each refutation also holds for a doubling capacity policy. -/
+
+/-- a host buffer `[1,2,3]` with `k` spare cells, and a guest `[9]` -/
+def hostHeap (k : Nat) : Heap Nat := [[1, 2, 3] ++ List.replicate k 238, [9]]
+
+/-- what the pre-repair `insert` did to a host with one spare cell: the guest and the host's
+tail are written INTO THE HOST'S ARRAY (`[1,2,3,EE]` becomes `[1,9,2,3]`) -/
+example : (spliceOld (fun _ _ => 0) (hostHeap 1) ⟨0, 0, 3, 4⟩ 1 ⟨1, 0, 1, 1⟩).2
+    = [[1, 9, 2, 3], [9], [9, 2, 3]] := by decide
+
+/-- pre-repair `insert` (4effce8 reverted): FRAME fails for spare capacity 1, 2, 3 -/
+theorem splice_old_breaks_frame : ∀ k ∈ [1, 2, 3],
+    ¬ (hostHeap k <+: (spliceOld (fun _ _ => 0) (hostHeap k) ⟨0, 0, 3, 3 + k⟩ 1 ⟨1, 0, 1, 1⟩).2) ∧
+    ¬ (hostHeap k <+: (spliceOld (fun _ n => n) (hostHeap k) ⟨0, 0, 3, 3 + k⟩ 1 ⟨1, 0, 1, 1⟩).2) := by
+  decide
+
+/-- … and it also wrote into the GUEST's array when the guest had spare capacity -/
+example : (spliceOld (fun _ _ => 0) ([[1, 2, 3], [9, 238, 238]] : Heap Nat) ⟨0, 0, 3, 3⟩ 1 ⟨1, 0, 1, 3⟩).2
+    = [[1, 2, 3], [9, 2, 3], [1, 9, 2, 3]] := by decide
+
+/-- the current `insert` on the same heaps: nothing changes, the result is the spliced value -/
+example : ∀ k ∈ [0, 1, 2, 3],
+    (hostHeap k <+: (spliceMem (fun _ _ => 0) (hostHeap k) ⟨0, 0, 3, 3 + k⟩ 1 ⟨1, 0, 1, 1⟩).2) ∧
+    read (spliceMem (fun _ _ => 0) (hostHeap k) ⟨0, 0, 3, 3 + k⟩ 1 ⟨1, 0, 1, 1⟩).2
+      (spliceMem (fun _ _ => 0) (hostHeap k) ⟨0, 0, 3, 3 + k⟩ 1 ⟨1, 0, 1, 1⟩).1 = [1, 9, 2, 3] := by
+  decide
+
+/-- pre-repair `Rotate` (e795ac6 reverted): `append(p[m:], p[:m]...)` overwrites the cells behind
+the argument (spare capacity, or the rest of an enclosing buffer) -/
+theorem rot_old_breaks_frame : ∀ k ∈ [1, 2, 3],
+    ¬ (hostHeap k <+: (rotOld (fun _ _ => 0) (hostHeap k) ⟨0, 0, 3, 3 + k⟩ 1).2) := by decide
+
+example : (rotOld (fun _ _ => 0) (hostHeap 2) ⟨0, 0, 3, 5⟩ 1).2 = [[1, 2, 3, 1, 238], [9]] := by decide
+
+/-- pre-repair `Concat` (e795ac6 reverted): `append(head.Bytes(), …)` writes behind the head -/
+theorem cat_old_breaks_frame : ∀ k ∈ [1, 2, 3],
+    ¬ (hostHeap k <+: (catOld (fun _ _ => 0) (hostHeap k) ⟨0, 0, 3, 3 + k⟩ [⟨1, 0, 1, 1⟩]).2) := by decide
+
+/-- pre-repair `FeatureSlice.Insert` (d065452 reverted) on a table `[10,20,30]` with `k` spare
+cells, inserting at index 1: the receiver's array is shifted in place -/
+theorem tabInsert_old_breaks_frame : ∀ k ∈ [1, 2, 3],
+    ¬ (([[10, 20, 30] ++ List.replicate k 0] : Heap Nat) <+:
+      (tabInsertOld (fun _ _ => 0) (fun _ _ => 1) [[10, 20, 30] ++ List.replicate k 0] ⟨0, 0, 3, 3 + k⟩ 15).2) := by
+  decide
+
+example : (tabInsertOld (fun _ _ => 0) (fun _ _ => 1) ([[10, 20, 30, 0]] : Heap Nat) ⟨0, 0, 3, 4⟩ 15).2
+    = [[10, 15, 20, 30]] := by decide
+
+/-- the "flip in place" mutant of `Reverse` (validation only) violates FRAME -/
+theorem rev_old_breaks_frame :
+    ¬ (hostHeap 0 <+: (revOld (hostHeap 0) ⟨0, 0, 3, 3⟩).2) := by decide
+
+/-! sequence level, with features -/
+
+/-- two features on a 10-base sequence -/
+def fA : Feature := ⟨"gene", .point 5, []⟩
+def fB : Feature := ⟨"gene", .ranged 2 8 false false, []⟩
+
+/-- a world whose only table `[fA, fB]` has `k` spare cells and whose only buffer (10 residues)
+has `k` spare cells -/
+def world (k : Nat) : World Feature :=
+  ⟨[[65, 67, 71, 84, 65, 67, 71, 84, 65, 67] ++ List.replicate k 238, [78, 78]],
+   [[fA, fB] ++ List.replicate k default]⟩
+
+/-- the sequence in `world k` -/
+def theSeq (k : Nat) : MSeq := ⟨⟨0, 0, 2, 2 + k⟩, ⟨0, 0, 10, 10 + k⟩⟩
+/-- a guest `NN` without features -/
+def theGuest : MSeq := ⟨Slice.nil, ⟨1, 0, 2, 2⟩⟩
+
+/-- a decidable observation of a table cell (`Loc` has no `DecidableEq`): which of the three
+locations present in `world k` it holds, or none of them -/
+private def obsLoc (f : Feature) : Nat :=
+  if f.loc.beq (.point 5) then 1 else if f.loc.beq (.ranged 2 8 false false) then 2
+  else if f.loc.beq (default : Feature).loc then 0 else 3
+
+private theorem not_frame_of_tab {w w' : World Feature} (h : 0 < w.T.length ∧
+    (w'.T.get 0).map obsLoc ≠ (w.T.get 0).map obsLoc) : ¬ Frame w w' :=
+  fun hf => h.2 (by rw [(frame_arrays hf).2 0 h.1])
+
+private theorem not_frame_of_buf {w w' : World Feature} (h : 0 < w.B.length ∧ w'.B.get 0 ≠ w.B.get 0) :
+    ¬ Frame w w' := fun hf => h.2 ((frame_arrays hf).1 0 h.1)
+
+/-- pre-repair `Delete` (787a48e reverted): the caller's table holds the shortened locations
+afterwards — for every spare capacity, including none -/
+theorem delete_old_breaks_frame : ∀ k ∈ [0, 1, 2, 3],
+    ¬ Frame (world k) (deleteSeqOld (world k) (theSeq k) 0 2).2 := by
+  have key : ∀ k ∈ [0, 1, 2, 3], 0 < (world k).T.length ∧
+      ((deleteSeqOld (world k) (theSeq k) 0 2).2.T.get 0).map obsLoc ≠ ((world k).T.get 0).map obsLoc := by
+    decide
+  exact fun k hk => not_frame_of_tab (key k hk)
+
+/-- pre-repair `Insert` (4effce8 reverted), sequence level: the host's buffer is overwritten as
+soon as the spare capacity holds the guest -/
+theorem insert_old_breaks_frame : ∀ k ∈ [2, 3],
+    ¬ Frame (world k) (spliceSeqOld (fun _ _ => 0) (fun l => l.shift 4 2) (fun l => l.expand 0 4)
+      (world k) (theSeq k) 4 theGuest).2 := by
+  have key : ∀ k ∈ [2, 3], 0 < (world k).B.length ∧
+      (spliceSeqOld (fun _ _ => 0) (fun l => l.shift 4 2) (fun l => l.expand 0 4)
+        (world k) (theSeq k) 4 theGuest).2.B.get 0 ≠ (world k).B.get 0 := by decide
+  exact fun k hk => not_frame_of_buf (key k hk)
+
+/-- pre-repair `Rotate` (e795ac6 reverted), sequence level -/
+theorem rotate_old_breaks_frame : ∀ k ∈ [1, 2, 3],
+    ¬ Frame (world k) (rotateSeqOld (fun _ _ => 0) (world k) (theSeq k) 9).2 := by
+  have key : ∀ k ∈ [1, 2, 3], 0 < (world k).B.length ∧
+      (rotateSeqOld (fun _ _ => 0) (world k) (theSeq k) 9).2.B.get 0 ≠ (world k).B.get 0 := by decide
+  exact fun k hk => not_frame_of_buf (key k hk)
+
+/-- pre-repair `Concat` (e795ac6 reverted), sequence level: the cells behind the head's residues
+are overwritten -/
+theorem concat_old_breaks_frame : ∀ k ∈ [2, 3],
+    ¬ Frame (world k) (concatSeqOld (fun _ _ => 0) (world k) [theSeq k, theGuest]).2 := by
+  have key : ∀ k ∈ [2, 3], 0 < (world k).B.length ∧
+      (concatSeqOld (fun _ _ => 0) (world k) [theSeq k, theGuest]).2.B.get 0 ≠ (world k).B.get 0 := by
+    decide
+  exact fun k hk => not_frame_of_buf (key k hk)
+
+/-- pre-repair `Concat` with the pre-repair `ff.Insert` (d065452 reverted): concatenating a
+sequence with itself shifts the head's table in place when it has spare capacity -/
+theorem concat_old_breaks_table : ∀ k ∈ [2, 3],
+    ¬ Frame (world k) (concatSeqOld (fun _ _ => 0) (world k) [theSeq k, theSeq k]).2 := by
+  have key : ∀ k ∈ [2, 3], 0 < (world k).T.length ∧
+      ((concatSeqOld (fun _ _ => 0) (world k) [theSeq k, theSeq k]).2.T.get 0).map obsLoc
+        ≠ ((world k).T.get 0).map obsLoc := by decide
+  exact fun k hk => not_frame_of_tab (key k hk)
+
+/-- the "assign into `seq.Features()`" mutant of `Slice` (validation only) violates FRAME -/
+theorem slice_old_breaks_frame :
+    ¬ Frame (world 0) (sliceFwdSeqOld (world 0) (theSeq 0) 3 7).2 :=
+  not_frame_of_tab (by decide)
+
+/-! ### non-vacuity: the hypotheses of REFINEMENT / PROGRAMS are satisfiable on heaps with spare
+capacity, and the conclusions compute -/
+
+/-- the arguments in `world k` are well formed and a four-operation program is acceptable -/
+example : ∀ k ∈ [0, 1, 2, 3], WFSeq (world k) (theSeq k) ∧ WFSeq (world k) theGuest ∧
+    ∀ op ∈ [Op.insert 4 theGuest, Op.delete 0 2, Op.rotate 9, Op.concat [] [theGuest]],
+      OpOK (world k) (theSeq k) op := by
+  decide
+
+/-- on `world 2` the current `Insert` returns the spliced residues and does not touch the host
+buffer (compare `insert_old_breaks_frame`) -/
+example :
+    (readSeq (insertSeq (fun _ _ => 0) (world 2) (theSeq 2) 4 theGuest).2
+      (insertSeq (fun _ _ => 0) (world 2) (theSeq 2) 4 theGuest).1).bytes
+      = [65, 67, 71, 84, 78, 78, 65, 67, 71, 84, 65, 67] ∧
+    (insertSeq (fun _ _ => 0) (world 2) (theSeq 2) 4 theGuest).2.B.get 0 = (world 2).B.get 0 := by
+  decide
+
 end Gts.C11
